@@ -15,7 +15,7 @@ for d in /tmp/seedout/R*/*/; do
   git -C $WT reset -q --hard; git -C $WT clean -fdqx; git -C $WT checkout -q --detach $(git -C /repo rev-parse HEAD)
   if ! git -C $WT apply "$d/patch.diff" 2>/dev/null; then echo "   patch does not apply"; continue; fi
   if ! (cd $WT/v5 && go build ./... && go test -vet=off -count=1 ./... >/dev/null 2>&1); then echo "   SUITE FAILS with the refactoring"; continue; fi
-  out=$(./bin/jpverif rules --repo $WT 2>&1 | grep -A1 "^!" | grep -v "len(doc) == 0\]\|ill-formed text is accepted")
+  out=$(./bin/jpverif rules --repo $WT 2>&1 | grep -A1 "^!" | grep -v "len(doc) == 0\]\|ill-formed text is accepted\|a member name is written without escaping\|whose U+2028")
   if [ -z "$(echo "$out" | grep '^!')" ]; then
     cp "$d/patch.diff" variants/silent/$id.diff; echo "$ALL" > variants/silent/$id.rules; echo "   silent -> stored"
   else
